@@ -1,4 +1,4 @@
-import OW.Proofs.NdC02Ints
+import OW.Proofs.NdC02Bulk
 /-!
 C02 — bulk array operations equal their element-by-element, row-major definition; contiguity; integer helpers.
 
@@ -7,16 +7,16 @@ Only the property theorems (helper lemmas are in `OW/Proofs/NdC02*.lean`). The m
 Go `int` is `Int` (no overflow); all element types are covered by polymorphism in `α`.
 -/
 namespace OW.Props.C02
-open OW.Nd OW.NdC02
+open OW.Nd
 
 /-! ## Part A — integer index helpers (`data/sliceops.go`, `data/arraysint.go`) -/
 
 /-- A1. `Product` as the Go loop computes it (left fold from 1) is the product of the list. -/
 theorem productL_eq (ix : Idx) : productL ix = product ix := by
-  unfold productL; rw [foldl_mul_eq]; omega
+  unfold productL; rw [NdC02.foldl_mul_eq]; omega
 
 /-- A1. The element count of a shape with all extents ≥ 1 is ≥ 1. -/
-theorem product_pos {l : Idx} (h : Pos l) : 1 ≤ product l := OW.NdC02.product_pos h
+theorem product_pos {l : Idx} (h : Pos l) : 1 ≤ product l := NdC02.product_pos h
 
 example : productL [2, 3, 4] = 24 ∧ product [2, 3, 4] = 24 := by decide
 
@@ -28,7 +28,7 @@ theorem offsets_spec (dims : Idx) (hne : dims ≠ []) :
     (∀ i, i < dims.length → (offsetsT dims)[i]? = some (product (dims.drop (i + 1)))) ∧
     (∀ d ds, offsetsT (d :: ds) = product ds :: offsetsT ds) ∧
     offsets [] = .error "index-out-of-range" :=
-  ⟨offsets_ok hne, offsetsT_length dims, offsetsT_getElem? dims, offsetsT_cons, rfl⟩
+  ⟨NdC02.offsets_ok hne, NdC02.offsetsT_length dims, NdC02.offsetsT_getElem? dims, NdC02.offsetsT_cons, rfl⟩
 
 example : offsets [2, 3, 4] = .ok [12, 4, 1] := by decide
 
@@ -40,12 +40,12 @@ theorem idivmod_rowmajor {dims : Idx} (hd : Pos dims) :
       idivmod k (offsetsT dims) dims = .ok (unravel k dims) ∧
       InBounds (unravel k dims) dims ∧ ravel (unravel k dims) dims = k) ∧
     (∀ i, InBounds i dims → unravel (ravel i dims) dims = i ∧ 0 ≤ ravel i dims ∧ ravel i dims < product dims) :=
-  ⟨fun _ h0 h1 => ⟨idivmod_rowmajor' hd h0 h1, unravel_inBounds hd h0 h1, ravel_unravel hd h0 h1⟩,
-   fun _ h => ⟨unravel_ravel h, ravel_bounds h⟩⟩
+  ⟨fun _ h0 h1 => ⟨NdC02.idivmod_rowmajor' hd h0 h1, NdC02.unravel_inBounds hd h0 h1, NdC02.ravel_unravel hd h0 h1⟩,
+   fun _ h => ⟨NdC02.unravel_ravel h, NdC02.ravel_bounds h⟩⟩
 
 /-- A3 (beyond the range). For any `k ≥ 0`, `IDivMod` yields the digits of `k mod Π dims` (it wraps, never fails). -/
 theorem idivmod_wraps {dims : Idx} (hd : Pos dims) {k : Int} (h0 : 0 ≤ k) :
-    idivmod k (offsetsT dims) dims = .ok (unravel (k % product dims) dims) := idivmod_offsetsT hd h0
+    idivmod k (offsetsT dims) dims = .ok (unravel (k % product dims) dims) := NdC02.idivmod_offsetsT hd h0
 
 example : idivmod 17 (offsetsT [2, 3, 4]) [2, 3, 4] = .ok [1, 1, 1] ∧ unravel 17 [2, 3, 4] = [1, 1, 1]
     ∧ ravel [1, 1, 1] [2, 3, 4] = 17 := by decide
@@ -54,32 +54,32 @@ example : idivmod 17 (offsetsT [2, 3, 4]) [2, 3, 4] = .ok [1, 1, 1] ∧ unravel 
 rank by one modulo the element count (the last index wraps to all zeros). -/
 theorem increment_rowmajor {v dims : Idx} (h : InBounds v dims) :
     ∃ v', increment v dims = .ok v' ∧ InBounds v' dims ∧ ravel v' dims = (ravel v dims + 1) % product dims :=
-  increment_spec h
+  NdC02.increment_spec h
 
 /-- A4. Iterating `Increment` `k` times from the all-zeros index gives the row-major index of rank `k`
 (= `IDivMod(k, Offsets(dims), dims)`), for every `k < Π dims`. -/
 theorem increment_iter {dims : Idx} (hd : Pos dims) (k : Nat) (hk : (k : Int) < product dims) :
-    incrN dims k (uniform dims.length 0) = .ok (unravel k dims) ∧
+    NdC02.incrN dims k (uniform dims.length 0) = .ok (unravel k dims) ∧
     idivmod k (offsetsT dims) dims = .ok (unravel k dims) := by
-  have h := incrN_spec k (inBounds_zeros hd) (by rw [ravel_zeros]; omega)
-  rw [ravel_zeros, Int.zero_add] at h
-  exact ⟨h, idivmod_rowmajor' hd (by omega) hk⟩
+  have h := NdC02.incrN_spec k (NdC02.inBounds_zeros hd) (by rw [NdC02.ravel_zeros]; omega)
+  rw [NdC02.ravel_zeros, Int.zero_add] at h
+  exact ⟨h, NdC02.idivmod_rowmajor' hd (by omega) hk⟩
 
 example : increment [0, 2, 3] [2, 3, 4] = .ok [1, 0, 0] ∧ increment [1, 2, 3] [2, 3, 4] = .ok [0, 0, 0] := by decide
-example : incrN [2, 3, 4] 17 [0, 0, 0] = .ok [1, 1, 1] := by decide
+example : NdC02.incrN [2, 3, 4] 17 [0, 0, 0] = .ok [1, 1, 1] := by decide
 
 /-- A5. `Multiply(lhs, rhs)` is the pointwise product when `rhs` is at least as long as `lhs`
 (in particular for equal lengths), and panics when `rhs` is shorter. -/
 theorem multiply_spec (a b : Idx) :
     (a.length ≤ b.length → multiply a b = .ok (List.zipWith (· * ·) a b)) ∧
     (b.length < a.length → multiply a b = .error "index-out-of-range") :=
-  ⟨multiply_eq, multiply_short⟩
+  ⟨NdC02.multiply_eq, NdC02.multiply_short⟩
 
 /-- A5. `dotProduct(lhs, rhs)` is `Σ lhs[i]·rhs[i]` when `rhs` is at least as long as `lhs`, and panics when shorter. -/
 theorem dotProduct_spec (a b : Idx) :
     (a.length ≤ b.length → dotProduct a b = .ok (List.zipWith (· * ·) a b).sum) ∧
     (b.length < a.length → dotProduct a b = .error "index-out-of-range") :=
-  ⟨dotProduct_eq, dotProduct_short⟩
+  ⟨NdC02.dotProduct_eq, NdC02.dotProduct_short⟩
 
 example : multiply [1, 2, 3] [4, 5, 6] = .ok [4, 10, 18] ∧ dotProduct [1, 2, 3] [4, 5, 6] = .ok 32 := by decide
 
@@ -88,7 +88,7 @@ the empty list panics. -/
 theorem maximum_spec :
     (∀ v vs, ∃ m, maximum (v :: vs) = .ok m ∧ m ∈ v :: vs ∧ ∀ x ∈ v :: vs, x ≤ m) ∧
     maximum [] = .error "index-out-of-range" :=
-  ⟨fun v vs => ⟨_, rfl, foldl_max_spec vs v⟩, rfl⟩
+  ⟨fun v vs => ⟨_, rfl, NdC02.foldl_max_spec vs v⟩, rfl⟩
 
 /-- A5. `Argmax(vector)` of a non-empty list is the LEAST index of a maximal element: `0 ≤ r < len`,
 `vector[r]` is an upper bound of the list, and every earlier element is strictly smaller.
@@ -99,10 +99,78 @@ theorem argmax_spec :
       ∀ j : Nat, (j : Int) < r → ∀ x, (v :: vs)[j]? = some x → x < m) ∧
     argmax [] = .error "index-out-of-range" := by
   refine ⟨fun v vs => ?_, rfl⟩
-  have h := argmaxLoop_spec vs [v] 1 v 0 rfl (by omega) (by omega) (by simp) (by simp) (by intro j hj; omega)
+  have h := NdC02.argmaxLoop_spec vs [v] 1 v 0 rfl (by omega) (by omega) (by simp) (by simp) (by intro j hj; omega)
   obtain ⟨h0, h1, m, hm, hub, hlt⟩ := h
   exact ⟨_, m, rfl, h0, h1, hm, hub, hlt⟩
 
 example : argmax [1, 5, 2, 5] = .ok 1 ∧ maximum [1, 5, 2, 5] = .ok 5 := by decide
+
+/-! ## Part B — contiguity (`Contiguous()` of `data/arrays.go`) -/
+
+/-- B1. For every view reachable by in-bounds slicing of a root (any rank, stepped or not),
+`Contiguous()` does not panic, and it reports `true` exactly when the elements are adjacent in storage in
+row-major order: the element of row-major rank `k` is at address `Start + k`, for every `0 ≤ k < size`. -/
+theorem contiguous_iff {v : View} (h : Reach v) :
+    (v.contiguous = .ok true ↔
+      ∀ k, 0 ≤ k → k < v.size → v.index (unravel k v.dims) = .ok (v.start + k)) ∧
+    (∀ e, v.contiguous ≠ .error e) := by
+  obtain ⟨hiff, b, hb⟩ := NdC02.contiguous_iff_geo (reach_geo h)
+  exact ⟨hiff, fun e he => by rw [hb] at he; exact absurd he (by simp)⟩
+
+/-- B1 (arithmetic form). `Contiguous()` is true exactly when every dimension with more than one element has
+cumulative step 1 and all later dimensions are taken whole (`NdC02.Dense`). -/
+theorem contiguous_dense {v : View} (h : Reach v) :
+    (NdC02.Dense v.dims v.orig v.step → v.contiguous = .ok true) ∧
+    (¬ NdC02.Dense v.dims v.orig v.step → v.contiguous = .ok false) :=
+  NdC02.contiguous_eq (reach_geo h)
+
+/-! ## Part C — bulk operations (`data/arrays_go.go`, `data/cdata/arrays_c.go`, `data/arrayops.go`)
+
+Reference semantics (`OW/Proofs/NdC02Bulk.lean`): `NdC02.rowMajor dims` is the list of multi-indices of ranks
+`0, 1, …, size-1` in row-major order; `NdC02.getAll h a idxs` is the sequential `Get` over a list of indices;
+`NdC02.setAll h a idxs xs` the sequential `Set`. `ArrOK h a` (agentG, `OW/Proofs/NdC01.lean`) are the window
+conditions: the storage exists, `0 ≤ base`, `base + len ≤` storage length, the allocated shape fits in `len`
+(and in the `1<<30` C array type). -/
+
+section
+variable {α : Type}
+
+/-- C1. `Unroll()` of a reachable, well-windowed array never panics and returns exactly the elements visited one by
+one in row-major order (`getAll` over `rowMajor`; pointwise: entry `k` is `Get(unravel k dims)`).
+Go back-end: a contiguous view is returned as an ALIAS of the window `[base+start, base+start+size)` of the same
+storage (no copy), a non-contiguous view as a fresh slice. C back-end: always a fresh slice. -/
+theorem unroll_spec (h : Heap α) (a : Arr) (hr : Reach a.v) (ok : ArrOK h a) :
+    ∃ sl vals, unroll h a = .ok sl ∧ sliceVals h sl = .ok vals ∧
+      NdC02.getAll h a (NdC02.rowMajor a.v.dims) = .ok vals ∧ vals.length = a.v.size.toNat ∧
+      (∀ k : Nat, (k : Int) < a.v.size → ∃ x, vals[k]? = some x ∧ get h a (unravel (k : Int) a.v.dims) = .ok x) ∧
+      (a.isC = false → a.v.contiguous = .ok true → sl = .alias a.sid (a.base + a.v.start) a.v.size) ∧
+      (a.isC = false → a.v.contiguous = .ok false → sl = .fresh vals) ∧
+      (a.isC = true → sl = .fresh vals) := by
+  have g := reach_geo hr
+  obtain ⟨vals, hv, hl⟩ := NdC02.elems_ok g ok
+  have hpt := NdC02.elems_getElem hv
+  obtain ⟨b, hb⟩ := (NdC02.contiguous_iff_geo g).2
+  by_cases hgo : a.isC = false ∧ b = true
+  · obtain ⟨hgo, rfl⟩ := hgo
+    refine ⟨_, vals, NdC02.unroll_contig g ok hgo hb, ?_, hv, hl, hpt, fun _ _ => rfl, ?_, ?_⟩
+    · rw [NdC02.sliceVals_alias_contig g ok hb, hv]
+    · intro _ hc; rw [hb] at hc; exact absurd hc (by simp)
+    · intro hc; rw [hgo] at hc; exact absurd hc (by simp)
+  · have hcase : a.isC = true ∨ a.v.contiguous = .ok false := by
+      cases hC : a.isC with
+      | true => exact Or.inl rfl
+      | false =>
+        right; rw [hb]; cases b with
+        | false => rfl
+        | true => exact absurd ⟨hC, rfl⟩ hgo
+    have hu : unroll h a = .ok (.fresh vals) := by
+      rw [NdC02.unroll_gather hcase, NdC02.unrollGather_eq g, hv]; rfl
+    refine ⟨_, vals, hu, rfl, hv, hl, hpt, ?_, fun _ _ => rfl, fun _ => rfl⟩
+    intro hC hc
+    rcases hcase with h1 | h1
+    · rw [hC] at h1; exact absurd h1 (by simp)
+    · rw [hc] at h1; exact absurd h1 (by simp)
+
+end
 
 end OW.Props.C02
